@@ -76,6 +76,19 @@ func (e *Engine) extern(fr *Frame, st *State, callee *ssa.Function, args []Value
 		return e.poolGet(fr, st, callee, site)
 	case "runtime.KeepAlive":
 		return []Value{}
+	case "(net/netip.Addr).v6", "(net/netip.Addr).v6u16":
+		// semantics of the two accessors written out (the source goes through an
+		// array of interior pointers, which is outside the modelled subset):
+		// v6(i) is byte i, v6u16(i) the i-th big-endian 16-bit group of hi:lo.
+		hi, lo := args[0].T[0], args[0].T[1]
+		full := Concat(hi, lo) // 128 bits
+		i := ZeroExt(args[1].term(), 128)
+		if strings.HasSuffix(name, ".v6") {
+			sh := BVMul(BVSub(BVConst(15, 128), BVAnd(i, BVConst(15, 128))), BVConst(8, 128))
+			return []Value{scalar(Extract(BVLshr(full, sh), 7, 0))}
+		}
+		sh := BVMul(BVSub(BVConst(7, 128), BVAnd(i, BVConst(7, 128))), BVConst(16, 128))
+		return []Value{scalar(Extract(BVLshr(full, sh), 15, 0))}
 	}
 	if strings.HasPrefix(name, "sync/atomic.") || strings.HasPrefix(name, "(*sync/atomic.") {
 		unsup("atomic operation %s", name)
